@@ -48,19 +48,28 @@ def cases(tier):
     for (pc, bc) in combos:
         for shape in ('payload', 'hop', 'unknown'):
             out.append(dict(kind='out', pcrc=pc, bcrc=bc, shape=shape))
+    # forwarded bundles: every block arrives with a CRC value already in place and leaves with a recomputed one
+    for (pc, bc) in combos:
+        if tier == 'quick' and (pc, bc) in ((0, 0), (2, 0)):
+            continue
+        for mtu in (None, 'frag'):
+            out.append(dict(kind='fwd', pcrc=pc, bcrc=bc, mtu=mtu))
     for ct in (1, 2):
         for where in ('primary', 'payload', 'ext'):
             out.append(dict(kind='gate', crc=ct, where=where))
     for where in ('data', 'crcfield'):
         out.append(dict(kind='flip', crc=1, where=where, n=8 if tier == 'quick' else 16))
+    # concrete single-bit flips in the text of a node-ID-form EID (dtn://src/) of the primary block
+    for ct in (1, 2):
+        out.append(dict(kind='eidflip', crc=ct))
     return out
 
 
 def harness(case, tier):
     c = cur()
-    symcrc.EXACT[0] = (case['kind'] == 'flip')
+    symcrc.EXACT[0] = (case['kind'] in ('flip', 'eidflip'))
     try:
-        return {'out': h_out, 'gate': h_gate, 'flip': h_flip}[case['kind']](c, case, tier)
+        return {'out': h_out, 'fwd': h_fwd, 'gate': h_gate, 'flip': h_flip, 'eidflip': h_eidflip}[case['kind']](c, case, tier)
     finally:
         symcrc.EXACT[0] = False
 
@@ -95,6 +104,35 @@ def h_out(c, case, tier):
         c.prove(blk['crc_type'] == case['bcrc'], 'block-crc-type-kept')
     rfc9171.check_crcs(c, b, c.prove)
     return {'class': 'out', 'size': blen(w.sent[0])}
+
+
+def h_fwd(c, case, tier):
+    w = BpWorld(node_id=NODE, ctr_cap=10)
+    w.add_rx_route(r'^dtn://dest/.*', 'forward')
+    frag = case['mtu'] == 'frag'
+    pri = dict(flags=0, crc_type=case['pcrc'], destination='dtn://dest/svc', source='dtn://src/app', report_to='dtn:none',
+               create_ts=[c.sym_int('t', 2 ** 32, 2 ** 39), c.sym_int('s', 0, 2 ** 32)],
+               lifetime=c.sym_int('life', 2 ** 32, 2 ** 40))
+    if frag:
+        pay = c.sym_bytes('payload', 120)
+    else:
+        pay = c.sym_blob('payload', c.sym_int('P', 0, 2 ** 16, size=True))
+    blocks = [dict(type=10, num=2, flags=0, crc_type=case['bcrc'], data=rfc9171.enc([c.sym_int('lim', 30, 255), c.sym_int('cnt', 0, 23)])),
+              dict(type=200, num=3, flags=0, crc_type=case['bcrc'], data=c.sym_bytes('ext', 3)),
+              dict(type=1, num=1, flags=0, crc_type=case['bcrc'], data=pay)]
+    wire = rfc9171.sealed_bundle(pri, blocks)
+    w.add_tx_route('.*', mtu=(blen(wire) - 40) if frag else None)
+    w.recv(wire)
+    w.run_idle(40)
+    esc = w.escaped()
+    c.prove(not esc, 'no-callback-exception', detail=[repr(e) for (_s, e) in esc])
+    c.prove(len(w.sent) >= (2 if frag else 1), 'forwarded', detail=len(w.sent))
+    for x in w.sent:
+        b = rfc9171.decode_bundle(x)
+        c.prove(b['primary']['crc_type'] == case['pcrc'], 'primary-crc-type-kept')
+        # (blocks the node rewrites - hop count, previous node - get the node's own CRC type)
+        rfc9171.check_crcs(c, b, c.prove, tag='[forwarded]')
+    return {'class': 'out', 'n': len(w.sent)}
 
 
 def h_gate(c, case, tier):
@@ -135,6 +173,35 @@ def h_gate(c, case, tier):
     w.run_idle(20)
     c.prove(len(w.delivered) == 1, 'intact-copy-accepted-after-corrupted-one[%s]' % case['where'], detail=len(w.delivered))
     return {'class': 'gate'}
+
+
+def h_eidflip(c, case, tier):
+    ''' The receive gate recomputes the CRC over the re-encoded fields, not over the received octets; EID text is
+    normalised on re-encoding.  Every single-bit flip inside the source EID text is enumerated (concrete octets,
+    one fork per position and bit); the payload stays symbolic in its own unprotected block. '''
+    ct = case['crc']
+    w = BpWorld(node_id=NODE, ctr_cap=6)
+    w.add_rx_route(r'^dtn://node/.+', 'deliver')
+    w.add_tx_route('.*', mtu=None)
+    pri = dict(flags=0, crc_type=ct, destination='dtn://node/app', source='dtn://src/', report_to='dtn:none',
+               create_ts=[2 ** 33, 5], lifetime=3600000)
+    blocks = [dict(type=1, num=1, flags=0, crc_type=0, data=c.sym_bytes('d', 4))]
+    good = rfc9171.sealed_bundle(pri, blocks)
+    items = good.lit_items() if isinstance(good, SBuf) else list(good)
+    text = b'//src/'
+    head = bytes(int(x) for x in items[:80] if not is_sym(x))
+    start = head.index(text)
+    pos = c.choose(len(text), 'eid-octet')
+    bit = c.choose(8, 'bit')
+    bad_items = list(items)
+    bad_items[start + pos] = int(bad_items[start + pos]) ^ (1 << bit)
+    bad = SBuf.mk([Lit(bad_items)]) if isinstance(good, SBuf) else bytes(bad_items)
+    w.recv(bad)
+    w.run_idle(20)
+    tag = 'crc%d,octet=%d,bit=%d' % (ct, pos, bit)
+    c.prove(len(w.delivered) == 0 and len(w.agent._seen_bundle_ident) == 0, 'eid-text-flip-dropped[%s]' % tag,
+            detail=dict(delivered=len(w.delivered), corrupted=bytes(bad_items[start:start + len(text)])))
+    return {'class': 'flip'}
 
 
 def h_flip(c, case, tier):
